@@ -393,6 +393,11 @@ func cmdPrep(root, inFile, outFile string) int {
 		raw := []byte(s.Raw)
 		cfg := s.Cfg
 		cfg.Package = s.Name
+		// a third of the packages is generated with customTypes.ignore: true in the config
+		// file: the dialect has no custom types, so the switch must change nothing
+		if splitmix(hashStr(s.Name)+7)%3 == 0 {
+			cfg.CustomTypesIgnore = true
+		}
 		out := filepath.Join(root, "pkgs", s.Name)
 		wd := filepath.Join(root, "work", s.Name)
 		os.MkdirAll(out, 0o755)
